@@ -1043,6 +1043,7 @@ pub fn all_props() -> Vec<Box<dyn Prop>> {
         Box::new(crate::props2::C02),
         Box::new(crate::props2::C11b),
         Box::new(crate::props2::C13),
+        Box::new(crate::engb::C16e),
     ]
 }
 
